@@ -90,8 +90,11 @@ func (a *Act) instr(in ssa.Instruction) {
 		a.vals[x] = a.unop(x)
 	case *ssa.Alloc:
 		t := x.Type().(*types.Pointer).Elem()
-		if a.inLoop[a.curBlk] != nil && !x.Heap {
-			// a local slot re-used per iteration: treated as a fresh cell each time
+		if at, ok := t.Underlying().(*types.Array); ok {
+			// arrays live in the element heap so that they can be sliced
+			sl := a.makeSlice(a.cur, at.Elem(), fmt.Sprint(at.Len()), fmt.Sprint(at.Len()), "newarr_"+x.Name())
+			a.vals[x] = Val{Sort: SortInt, T: x.Type(), Term: a.vc.define("arrref", SortInt, sArr(sl))}
+			break
 		}
 		r := a.allocObject(a.cur, t, "new_"+x.Name())
 		a.vals[x] = Val{Sort: SortInt, T: x.Type(), Term: r}
@@ -585,9 +588,15 @@ func (a *Act) indexAddr(x *ssa.IndexAddr) Val {
 		if !ok {
 			break
 		}
-		a.safe("index", src, and(app("<=", "0", i), app("<", i, fmt.Sprint(at.Len()))), "array index in range", x.Pos())
+		if _, isC := x.Index.(*ssa.Const); !isC {
+			a.safe("index", src, and(app("<=", "0", i), app("<", i, fmt.Sprint(at.Len()))), "array index in range", x.Pos())
+		}
 		if base.Loc == nil {
-			a.safe("nil", exprText(a.fn, x.X), app("not", app("=", base.Term, "0")), "nil dereference", x.Pos())
+			// pointer to an array object: the array is a row of the element heap
+			if _, isAlloc := x.X.(*ssa.Alloc); !isAlloc {
+				a.safe("nil", exprText(a.fn, x.X), app("not", app("=", base.Term, "0")), "nil dereference", x.Pos())
+			}
+			return Val{T: x.Type(), Loc: &Loc{Kind: "elem", Base: base.Term, Idx: app("at", "0", i), Root: "E:" + typeName(at.Elem()), Owner: at.Elem(), T: at.Elem()}}
 		}
 		l := *a.objLoc(base)
 		if l.AIdx != "" {
@@ -648,8 +657,26 @@ func (a *Act) sliceOp(x *ssa.Slice) Val {
 		a.vc.assume(a.cur.reach, app("=", app("str-len", v.Term), sub(hi, lo)))
 		return v
 	case *types.Pointer:
-		_ = u
+		at, ok := u.Elem().Underlying().(*types.Array)
+		if ok && base.Loc == nil {
+			n := fmt.Sprint(at.Len())
+			lo, hi, mx := "0", n, n
+			if x.Low != nil {
+				lo = a.val(x.Low).Term
+			}
+			if x.High != nil {
+				hi = a.val(x.High).Term
+			}
+			if x.Max != nil {
+				mx = a.val(x.Max).Term
+			}
+			if x.Low != nil || x.High != nil || x.Max != nil {
+				a.safe("slice", src, and(app("<=", "0", lo), app("<=", lo, hi), app("<=", hi, mx), app("<=", mx, n)), "slice bounds in range", x.Pos())
+			}
+			return Val{Sort: SortSlice, T: x.Type(), Term: a.vc.define(x.Name(), SortSlice, mkSlice(base.Term, lo, sub(hi, lo), sub(mx, lo)))}
+		}
 		a.unsup("slice of array pointer")
+		return a.freshVal(x.Type(), "slc", a.cur)
 	}
 	a.unsup("Slice on %s", x.X.Type())
 	return a.freshVal(x.Type(), "slc", a.cur)
